@@ -678,6 +678,71 @@ Definition lib_mark_used (w : wstate) (j : nat) : wstate * option (list keyrec) 
   | None => (w, None)
   end.
 
+(* Wallet.witness_types(network=net): the witness types of the stored rows of that network (GROUP BY: in the
+   order legacy, p2sh-segwit, segwit), the wallet's own when there is none *)
+Definition lib_witness_types (w : wstate) (net : string) : list wtype :=
+  match filter (fun wt => existsb (fun k => wtype_eqb (k_wt k) wt && String.eqb (k_net k) net) (ws_keys w))
+               [Legacy; P2shSegwit; Segwit] with
+  | [] => [w_wt (ws_cfg w)]
+  | l => l
+  end.
+
+(* Wallet.scan(scan_gap_limit, account_id, change, network) when no provider reports a transaction: for every
+   change chain asked for and every witness type in use, one _get_key(number_of_keys = scan_gap_limit) *)
+Fixpoint scan_steps (w : wstate) (acct : Z) (net : string) (gap : nat) (todo : list (Z * wtype))
+  : wstate * option (list keyrec) :=
+  match todo with
+  | [] => (w, Some [])
+  | (chg, wt) :: r =>
+      match lib_get_keys w (Some acct) chg (Some wt) (Some net) gap with
+      | (w', Some _) => scan_steps w' acct net gap r
+      | (w', None) => (w', None)
+      end
+  end.
+
+Definition lib_scan (w : wstate) (gap : nat) (acct : option Z) (change : option Z) (net : option string)
+  : wstate * option (list keyrec) :=
+  let net' := fst (acct_defaults w net acct) in
+  let acct' := snd (acct_defaults w net acct) in
+  let wts := lib_witness_types w net' in
+  let changes := match change with Some c => [c] | None => [0; 1] end in
+  scan_steps w acct' net' gap (flat_map (fun c => map (fun wt => (c, wt)) wts) changes).
+
+(* Wallet.keys(account_id, change, depth, used, witness_type, network): the rows in id order that pass every
+   given filter; account_id without depth keeps rows of depth >= 3, change without depth keeps rows at key depth
+   or below (bip32 scheme) *)
+Definition row_depth (c : wcfg) (k : keyrec) : Z := w_root_depth c + Z.of_nat (length (k_path k)).
+Definition key_depth (c : wcfg) : Z := w_root_depth c + Z.of_nat (leaf_len c).
+Definition opt_test {A} (o : option A) (f : A -> bool) : bool := match o with Some a => f a | None => true end.
+
+Definition keys_query_pred (c : wcfg) (acct chg depth : option Z) (used : option bool) (wt : option wtype)
+           (net : option string) (k : keyrec) : bool :=
+  opt_test net (String.eqb (k_net k))
+  && opt_test wt (wtype_eqb (k_wt k))
+  && opt_test acct (fun a => (k_account k =? a) && (is_some depth || (3 <=? row_depth c k)))
+  && opt_test chg (fun ch => match k_change k with Some x => x =? ch | None => false end
+                             && (is_some depth || (key_depth c - 1 <? row_depth c k)))
+  && opt_test depth (fun d => row_depth c k =? d)
+  && opt_test used (Bool.eqb (k_used k)).
+
+Definition lib_keys_query (w : wstate) (acct chg depth : option Z) (used : option bool) (wt : option wtype)
+           (net : option string) : list keyrec :=
+  filter (keys_query_pred (ws_cfg w) acct chg depth used wt net) (ws_keys w).
+
+(* the wrappers: keys_addresses (depth defaults to the key depth), keys_address_payment / _change (change 0 / 1 at
+   key depth), addresslist (depth defaults to the key depth, -1 = every depth) *)
+Definition lib_keys_addresses (w : wstate) (acct chg depth : option Z) (used : option bool) (net : option string) :=
+  lib_keys_query w acct chg (Some (opt_default (key_depth (ws_cfg w)) depth)) used None net.
+Definition lib_keys_address_chain (w : wstate) (change : Z) (acct : option Z) (used : option bool)
+           (net : option string) :=
+  lib_keys_query w acct (Some change) (Some (key_depth (ws_cfg w))) used None net.
+Definition lib_addresslist_rows (w : wstate) (acct chg depth : option Z) (used : option bool) (net : option string) :=
+  lib_keys_query w acct chg
+                 (match depth with
+                  | None => Some (key_depth (ws_cfg w))
+                  | Some d => if d =? -1 then None else Some d
+                  end) used None net.
+
 Inductive op :=
 | ONewKeys (acct : option Z) (change : Z) (wt : option wtype) (net : option string) (n : nat)
 | OGetKeys (acct : option Z) (change : Z) (wt : option wtype) (net : option string) (n : nat)
@@ -686,7 +751,8 @@ Inductive op :=
 | OKeysForPath (upath : list pelem) (full : bool) (acct : option Z) (change index : Z) (wt : option wtype)
                (net : option string) (n : nat)
 | OMarkUsed (j : nat)
-| OReopen.
+| OReopen
+| OScan (gap : nat) (acct : option Z) (change : option Z) (net : option string).
 
 Definition step (w : wstate) (o : op) : wstate * option (list keyrec) :=
   match o with
@@ -697,6 +763,7 @@ Definition step (w : wstate) (o : op) : wstate * option (list keyrec) :=
   | OKeysForPath p full a ch i wt net n => lib_keys_for_path w p full None a i ch wt net n
   | OMarkUsed j => lib_mark_used w j
   | OReopen => (w, Some [])              (* every field of the state is persisted; see the correspondence *)
+  | OScan gap a ch net => lib_scan w gap a ch net
   end.
 
 Definition run (w : wstate) (ops : list op) : wstate := fold_left (fun s o => fst (step s o)) ops w.
@@ -741,6 +808,37 @@ Arguments k_id {X}. Arguments k_parent {X}. Arguments k_path {X}. Arguments k_ne
 Arguments k_purpose {X}. Arguments k_account {X}. Arguments k_change {X}. Arguments k_index {X}.
 Arguments k_used {X}. Arguments k_x {X}. Arguments ws_cfg {X}. Arguments ws_keys {X}.
 
+(* ------------------------------------------------------------------ multisig wallets: index bookkeeping *)
+(* The keys of a multisig wallet are built from the keys of its cosigner wallets (each a key book as above, over the
+   BIP48 / BIP45 template).  What the main wallet adds is a row per multisig key with an address_index column of
+   its own, and new_keys reads the next index from that column.  Model of that bookkeeping only (the position a key
+   was derived at stands for its path and address; Wallet.keys_for_path multisig branch + _new_key_multisig, as the
+   code is): a key whose address exists already is returned as it is; a new one is stored with the address_index
+   ARGUMENT of the call in its column, whatever position it was derived at. *)
+Record msrow := { mr_pos : Z; mr_col : Z }.
+
+Fixpoint ms_create (rows : list msrow) (arg : Z) (pos : Z) (n : nat) : list msrow * list Z :=
+  match n with
+  | O => (rows, [])
+  | S k =>
+      let rows1 := if existsb (fun r => mr_pos r =? pos) rows then rows
+                   else rows ++ [{| mr_pos := pos; mr_col := arg |}] in
+      let res := ms_create rows1 arg (pos + 1) k in
+      (fst res, pos :: snd res)
+  end.
+
+(* keys_for_path([], address_index = i, number_of_keys = n) / key_for_path([change, i]) (argument address_index = 0) *)
+Definition ms_keys_for_path (rows : list msrow) (i : Z) (n : nat) := ms_create rows i i n.
+Definition ms_key_for_explicit_path (rows : list msrow) (i : Z) := ms_create rows 0 i 1.
+
+Definition ms_next_index (rows : list msrow) : Z :=
+  match rows with
+  | [] => 0
+  | r :: rest => fold_left Z.max (map mr_col rest) (mr_col r) + 1
+  end.
+
+Definition ms_new_keys (rows : list msrow) (n : nat) := ms_keys_for_path rows (ms_next_index rows) n.
+
 (* ------------------------------------------------------------------ the concrete wallet: BIP32 key material *)
 Definition wallet_step := step xkey lib_subkey.
 Definition wallet_run := run xkey lib_subkey.
@@ -751,6 +849,18 @@ Definition wallet_from_seed (net : string) (wt : wtype) (acct : Z) (seed : bytes
   | None => None
   | Some m => lib_wallet_create xkey lib_subkey net wt acct m 0 true 0
   end.
+
+(* BIP39 "From mnemonic to seed": PBKDF2-HMAC-SHA512, password = the sentence (UTF-8, NFKD), salt = "mnemonic" ||
+   passphrase (UTF-8, NFKD), 2048 iterations, 64 bytes *)
+Definition bip39_salt_prefix : bytes := [x6d; x6e; x65; x6d; x6f; x6e; x69; x63].      (* "mnemonic" *)
+Definition spec_bip39_seed (sentence passphrase : bytes) : bytes :=
+  pbkdf2_hmac_sha512 sentence (bip39_salt_prefix ++ passphrase) 2048 64.
+
+(* Wallet.create(keys = <sentence>, password = <passphrase>) / HDKey.from_passphrase(sentence, password): the wallet
+   of the BIP39 seed of BOTH arguments *)
+Definition wallet_from_mnemonic (net : string) (wt : wtype) (acct : Z) (sentence passphrase : bytes)
+  : option (wstate xkey) :=
+  wallet_from_seed net wt acct (spec_bip39_seed sentence passphrase).
 
 (* the account-level key of a master, as HDKey.public_master / Wallet.public_master export it *)
 Definition account_path (wt : wtype) (coin acct : Z) : list pelem :=
